@@ -101,6 +101,19 @@ CLAIMS = {
              "the delivery monitors; two defects found this way were repaired (see known_findings.json).",
         technique="Lean 4 structural theorems over all answers (values and failures) of chip and bus + fault injection at each transfer index with recovery traffic",
         design="7 C11"),
+    'C12': dict(
+        text="Proof for the encode clauses and the carrier decode; tables/monitors for the other decoders. The float code is modelled in "
+             "soft-float over Rat (compared bit for bit with gcc on every run); general facts about round-to-nearest are proved once "
+             "(Sx/Lemmas/Rnd.lean, the only files importing Mathlib modules: relative error 2^-p, exactness on integers and dyadics, "
+             "floor(rnd x) >= floor x). Theorems, each for EVERY request in the documented range: C12_set_frequency (all 883 000 001 carriers "
+             "137..1020 MHz in 1 Hz steps: the three bytes are the 24-bit value whose realised frequency is within 250 Hz), C12_get_frequency "
+             "(every non-zero 24-bit RegFrf content decodes within 250 Hz), C12_fdev (600..200000 Hz: within one Fstep, 14 bits), "
+             "C12_ook_bitrate and C12_fsk_bitrate / C12_fsk_bitrate_bits (every rate in range, for FSK every binary32 bit pattern — the "
+             "conversion to double is proved exact: 32 MHz/(v+1) < rate <= 32 MHz/v (1+2^-24) resp. 512 MHz with 2^-53, i.e. within one "
+             "divider step), C12_snr (all 256 values exactly value/4), C12_fsk_rssi. Receiver/AFC bandwidth selection, packet RSSI with SNR "
+             "refinement, frequency error, temperature: decided by the decode/closest-value monitors on the real driver only.",
+        technique="Lean 4 rounding-error analysis (general lemmas about round-to-nearest) for all inputs + kernel tables + float sweeps on the real driver",
+        design="7 C12"),
     'C13': dict(
         text="Proof. Theorems Sx.C13_set_bandwidth, C13_set_spreading_factor, C13_override and their liftings to the cached build after any "
              "history (C13_bandwidth_cached, C13_spreading_factor_cached, via the bridge step_cached_of_wp = C02 + C01): for each of the ten "
